@@ -103,6 +103,7 @@ type Conn struct {
 	readBuf        *bytes.Buffer
 	readLock       sync.Mutex
 	readReady      chan struct{}
+	readClosed     bool // guarded by readLock
 	writeLock      sync.Mutex
 	readDeadline   time.Time
 	s              *xmpp.Session
@@ -178,12 +179,14 @@ func (c *Conn) Read(b []byte) (n int, err error) {
 	// The signal is buffered, so one that is sent between the check and the wait
 	// is not lost, and one left over from data that has been read already only
 	// makes us check again.
-	for c.readBuf.Len() == 0 {
+	for c.readBuf.Len() == 0 && !c.readClosed {
 		c.readLock.Unlock()
 		verifhook.Yield("ibb.read.wait")
-		_, open := <-c.readReady
+		<-c.readReady
 		c.readLock.Lock()
-		if !open {
+		if c.readClosed {
+			// Pass the signal on in case another Read is waiting too.
+			c.wakeReader()
 			break
 		}
 	}
@@ -246,6 +249,7 @@ func (c *Conn) Close() error {
 		return nil
 	}
 	c.closed = true
+	defer c.closeRead()
 
 	// Flush any remaining data to be written.
 	err := c.Flush()
@@ -270,8 +274,26 @@ func (c *Conn) Close() error {
 	if err != nil {
 		return err
 	}
-	close(c.readReady)
 	return respReadCloser.Close()
+}
+
+// wakeReader signals a pending call to Read (if any) to look at the buffer and
+// the closed flag again.
+func (c *Conn) wakeReader() {
+	select {
+	case c.readReady <- struct{}{}:
+	default:
+	}
+}
+
+// closeRead ends the receiving side: packets that arrive later are refused
+// and Read returns io.EOF once the buffer has been drained.
+func (c *Conn) closeRead() {
+	c.handler.rmStream(c.stanzaWriter.sid)
+	c.readLock.Lock()
+	c.readClosed = true
+	c.readLock.Unlock()
+	c.wakeReader()
 }
 
 func (c *Conn) closeNoNotify(t xmlstream.Encoder) error {
@@ -279,8 +301,7 @@ func (c *Conn) closeNoNotify(t xmlstream.Encoder) error {
 		return nil
 	}
 	c.closed = true
-
-	c.handler.rmStream(c.stanzaWriter.sid)
+	defer c.closeRead()
 
 	// Flush any remaining data to be written.
 	err := c.flush(t)
@@ -288,7 +309,6 @@ func (c *Conn) closeNoNotify(t xmlstream.Encoder) error {
 		return err
 	}
 
-	close(c.readReady)
 	return c.closeFlushFunc()
 }
 
